@@ -13,7 +13,9 @@ SPEC = {
                   "first certificate address leaves the complete hostmap state unchanged (no hostinfo created, no entry of Hosts, moreHosts, "
                   "Indexes, RemoteIndexes, Relays or the pending maps changed, so no primary changed) and the packets sent are exactly the "
                   "stored stage-2 reply of a held tunnel with that payload, preceded by one test request only if the sender's address moved "
-                  "that tunnel's remote into a preferred range. C10_older_rejected: in every state, a stage 1 whose peer-reported time is "
+                  "that tunnel's remote into a preferred range. C10_replay_history: the same over histories - a stage 1 that was accepted "
+                  "(created tunnel id) and is delivered again after ANY continuation while id is still in Indexes is answered with a resend "
+                  "and changes nothing (uses that the log of completed handshakes names every tunnel exactly once). C10_older_rejected: in every state, a stage 1 whose peer-reported time is "
                   "not newer than the primary tunnel for its first certificate address, accepted as responder, changes no map and creates "
                   "nothing. C10_tunnel_data / C10_log_sound: role, kept payload and time of every tunnel in Indexes are those of the "
                   "completed handshake (a log entry written exactly when a stage 1 or stage 2 completes) that created it.",
